@@ -2715,6 +2715,9 @@ fn core_word_str_to_num(xs: &mut State) -> Xresult {
         })?;
         xs.push_data(Cell::Real(r))
     } else {
+        if !(2..=36).contains(&base) {
+            return Err(Xerr::ErrorMsg(xeh_xstr!("unsupported number base")));
+        }
         let i = Xint::from_str_radix(&s, base).map_err(|_|
             Xerr::ParseError {
                 msg: crate::lex::PARSE_INT_ERRMSG,
